@@ -2,8 +2,8 @@
 (engine V) decide it, and the assumptions that go into the evidence file."""
 
 TB_KANI = "Kani 0.68 / CBMC 6.11 / CaDiCaL; CBMC memory model (no Stacked/Tree Borrows); termination not proved by Kani"
-TB_VERUS = "Verus 0.2026.09.13 + Z3; rustc macro expansion (-Zunpretty=expanded, nightly) agrees with the stable compiler; k2v lowering rules (DESIGN 4.2)"
-TB_STD_SPECS = "assumed std contracts in /verif/verus/prelude.rs (raw-pointer relational axioms, overflowing_*, from_utf8_unchecked, valid_utf8 bridge)"
+TB_VERUS = "Verus 0.2026.09.13 + Z3; rustc macro expansion (-Zunpretty=expanded, nightly) agrees with the stable compiler; k2v lowering rules (DESIGN 4.2; validated on every run by the k2v self-test on representative shapes, not per extracted function)"
+TB_STD_SPECS = "assumed std contracts in /verif/verus/prelude.rs, utf8.rs, pattern.rs (relational raw-pointer axioms, usize::overflowing_sub, slice-length and str invariants, from_utf8_unchecked, the PatternNorm abstraction); every assume_specification / external_body of the verified text is listed by the mechanical assumption_scan"
 
 NOTE_K = ("Kani harnesses run against a byte-identical scratch copy of /repo built as a dependency; bounded harnesses state their bound and are never "
           "counted as proved; reference functions in the harness stand for std and are tied to the real std by SPEC.* harnesses (thorough tier)")
